@@ -47,6 +47,19 @@ def fam_solve(ctx, R_, n, fixed, dom=None):
             M[i][j] = F(fixed[k])
         else:
             M[i][j] = ctx.choice('m%d%d' % (i, j), dom or DOM)
+    _solve_body(ctx, R_, n, M)
+
+
+def fam_solve_prop(ctx, R_, n):
+    """every equation is a multiple k_i * r of one row r (k_i, r_j solver variables): consistent systems of rank <= 1 with
+    several redundant equations"""
+    r = [ctx.choice('r%d' % j, DOM) for j in range(n + 1)]
+    k = [ctx.choice('k%d' % i, [-1, 0, 1, 2]) for i in range(R_)]
+    M = [[k[i] * r[j] for j in range(n + 1)] for i in range(R_)]
+    _solve_body(ctx, R_, n, M)
+
+
+def _solve_body(ctx, R_, n, M):
     A = [row[:-1] for row in M]
     lib_m = [[ctx.lib(x) if not isinstance(x, F) else int(x) for x in row] for row in M]
     st, sol = call(G.solve, [list(r) for r in lib_m])
@@ -117,6 +130,8 @@ def families(tier, seed):
         for fixed in product(dom, repeat=nfix):
             fams.append(Family('solve/%dx%d/%s' % (R_, n, ','.join(map(str, fixed)) or '-'), fam_solve, (R_, n, fixed, dom),
                                budget_s=None))
+    for R_, n in (((3, 2),) if tier == 'quick' else ((3, 2), (3, 3))):
+        fams.append(Family('solve-proportional/%dx%d' % (R_, n), fam_solve_prop, (R_, n), budget_s=None))
     return fams
 
 
